@@ -144,15 +144,19 @@ OnTx(m, e) ==
 OnDeliver(m, e) ==
   LET c == e.c
       cn == m.conns[c]
-      awaited == e.live /\ m.call.op # "none" /\ m.call.awaiting /\ c = m.cur
+      (* bytes that are not (yet) a complete, well-framed V3 packet - the first part of a reply that TCP delivers in two segments, or a reply
+         cut off by the transport - complete nothing: the reader keeps waiting (C04); whatever follows them is judged with them *)
+      fragment == Ver = 3 /\ e.m = "OTHER" /\ "obs" \in DOMAIN e /\ e.obs.ty = -1 /\ e.obs.ln > 0
+      awaited0 == e.live /\ m.call.op # "none" /\ m.call.awaiting /\ c = m.cur
+      awaited == awaited0 /\ ~fragment
       isResp == awaited /\ m.call.op = "send" /\ m.call.tx > 0 /\ e.gen /\ e.m \in {"ENC", "PKT"} /\ (Ver = 2 \/ e.k = m.call.lastk)
       genHS == e.m = "HSR" /\ e.gen
       inOrder == genHS /\ e.k = cn.latest
       cn2 == [cn EXCEPT !.hsok = @ \/ (genHS /\ e.live /\ awaited),
                         !.answered = IF genHS /\ e.live /\ awaited THEN e.k ELSE @,
                         !.racy = @ \/ (genHS /\ ~inOrder) \/ (genHS /\ ~awaited),
-                        !.stray = IF e.live /\ ~awaited THEN @ + 1 ELSE @,
-                        !.straybad = IF e.live /\ ~awaited /\ ~(e.gen /\ e.m \in {"PKT", "ENC"} /\ (Ver = 2 \/ e.k = cn.answered)) THEN @ + 1 ELSE @,
+                        !.stray = IF e.live /\ ~awaited /\ ~(fragment /\ awaited0) THEN @ + 1 ELSE @,
+                        !.straybad = IF e.live /\ ~awaited /\ ~(fragment /\ awaited0) /\ ~(e.gen /\ e.m \in {"PKT", "ENC"} /\ (Ver = 2 \/ e.k = cn.answered)) THEN @ + 1 ELSE @,
                         !.authvalid = @ \/ (genHS /\ e.live /\ awaited),
                         !.half = IF genHS /\ e.live /\ awaited THEN FALSE ELSE @,
                         !.hsfail = IF genHS /\ e.live /\ awaited THEN 0 ELSE @]
@@ -247,6 +251,7 @@ MonStep(m, e) ==
     [] e.e = "cancel" -> [OnCancel(m, e) EXCEPT !.call = IF m.call.op = "none" THEN @ ELSE [@ EXCEPT !.cancelled = TRUE]]
     [] e.e = "jumpauth" -> OnJumpAuth(m, e)
     [] e.e = "jumphalf" -> OnJumpHalf(m, e)
+    [] e.e = "setlife" -> m                          \* configuring the lifetime again does not give the existing connection a new lease
     [] e.e = "jumplife" -> OnJumpLife(m, e)
     [] e.e = "ret" -> IF m.call.op = "none" THEN Flag(m, <<"harness", "result without a call">>) ELSE OnRet(m, e)
     [] e.e = "devret" -> OnDevRet(m, e)
